@@ -152,11 +152,11 @@ Pned = namedtuple('Pned', 'n e d')  # World mapping North East Down right hand o
 Pfs = namedtuple('Pfs', 'f s')  # Body Forward Starboard
 Pfsb = namedtuple('Pfsb', 'f s b')  # Body Forward Starboard Below right hand order
 
-REO_PointXY = re.compile(r'^([-+]?\d+\.\d*|[-+]?\d+)?[X,x]([-+]?\d+\.\d*|[-+]?\d+)[Y,y]$')
-REO_PointXYZ = re.compile(r'^([-+]?\d+\.\d*|[-+]?\d+)[X,x]([-+]?\d+\.\d*|[-+]?\d+)[Y,y]([-+]?\d+\.\d*|[-+]?\d+)[Z,z]$')
+REO_PointXY = re.compile(r'^([-+]?\d+\.\d*|[-+]?\d+)?[Xx]([-+]?\d+\.\d*|[-+]?\d+)[Yy]$')
+REO_PointXYZ = re.compile(r'^([-+]?\d+\.\d*|[-+]?\d+)[Xx]([-+]?\d+\.\d*|[-+]?\d+)[Yy]([-+]?\d+\.\d*|[-+]?\d+)[Zz]$')
 
-REO_PointNE = re.compile(r'^([-+]?\d+\.\d*|[-+]?\d+)[N,n]([-+]?\d+\.\d*|[-+]?\d+)[E,e]$')
-REO_PointNED = re.compile(r'^([-+]?\d+\.\d*|[-+]?\d+)[N,n]([-+]?\d+\.\d*|[-+]?\d+)[E,e]([-+]?\d+\.\d*|[-+]?\d+)[D,d]$')
+REO_PointNE = re.compile(r'^([-+]?\d+\.\d*|[-+]?\d+)[Nn]([-+]?\d+\.\d*|[-+]?\d+)[Ee]$')
+REO_PointNED = re.compile(r'^([-+]?\d+\.\d*|[-+]?\d+)[Nn]([-+]?\d+\.\d*|[-+]?\d+)[Ee]([-+]?\d+\.\d*|[-+]?\d+)[Dd]$')
 
-REO_PointFS = re.compile(r'^([-+]?\d+\.\d*|[-+]?\d+)[F,f]([-+]?\d+\.\d*|[-+]?\d+)[S,s]$')
-REO_PointFSB = re.compile(r'^([-+]?\d+\.\d*|[-+]?\d+)[F,f]([-+]?\d+\.\d*|[-+]?\d+)[S,s]([-+]?\d+\.\d*|[-+]?\d+)[B,b]$')
+REO_PointFS = re.compile(r'^([-+]?\d+\.\d*|[-+]?\d+)[Ff]([-+]?\d+\.\d*|[-+]?\d+)[Ss]$')
+REO_PointFSB = re.compile(r'^([-+]?\d+\.\d*|[-+]?\d+)[Ff]([-+]?\d+\.\d*|[-+]?\d+)[Ss]([-+]?\d+\.\d*|[-+]?\d+)[Bb]$')
